@@ -46,6 +46,14 @@ type c14Scenario struct {
 	// the root checkpoint (a previous process ran the full sync and no unit), "records" = root checkpoint and
 	// recovery records (a previous process replayed the stream up to symbol StopAt)
 	Pre string `json:"pre,omitempty"`
+	// Stops (family 'lives', c14l_test.go): symbol numbers in front of which the run under way is stopped
+	// in an orderly way (context cancelled, source closed) once it has replayed at least one item; each
+	// number is used by the first run that gets there. The history is a sequence of lives of one
+	// namespace, each replaying a part of the stream. In the frontier modes the 100 ms flush fires
+	// before the stop (choice 0; the stop without it costs one deviation).
+	Stops []int `json:"stops,omitempty"`
+	// CrashLives > 0: crash points are enumerated in the first CrashLives starts only
+	CrashLives int `json:"crash_lives,omitempty"`
 }
 
 type c14Run struct {
@@ -136,8 +144,13 @@ func c14Exec(t *testing.T, scn c14Scenario, ch *mc.Chooser) (rec c14Rec, machine
 		if scn.StopAt > 0 {
 			maxRuns++
 		}
+		maxRuns += len(scn.Stops)
+		stopUsed := make([]bool, len(scn.Stops))
 		var prevRo *RedisOutput // the output of the previous run when that run ended without a crash (SoftStops)
 		for runNo := 0; runNo < maxRuns; runNo++ {
+			if scn.CrashLives > 0 && runNo >= scn.CrashLives {
+				ctl.noCrash = true
+			}
 			rr := c14Run{FirstSeq: srv.NumReqs() + 1, Idle: streamDone}
 			if runNo > 0 {
 				srv.Revive()
@@ -195,6 +208,15 @@ func c14Exec(t *testing.T, scn c14Scenario, ch *mc.Chooser) (rec c14Rec, machine
 			crashed = false
 			for pos < len(items) && !run.ended && !crashed {
 				if scn.StopAt > 0 && runNo == 0 && items[pos].Sym == scn.StopAt {
+					stopped = true
+					break
+				}
+				if pos > startIdx && c14StopHere(scn.Stops, stopUsed, items[pos].Sym) {
+					// family 'lives': an orderly stop between two units; the flush ticker has fired (a life
+					// longer than 100 ms) unless the history deviates
+					if frontierMode && ch.Choose(fmt.Sprintf("r%d.stopflush", runNo), 2) == 0 {
+						crashed = doEvent(func() { vtime.Fire("frontier"); run.wait() })
+					}
 					stopped = true
 					break
 				}
@@ -338,8 +360,15 @@ func oracleC14(scn c14Scenario, rec *c14Rec) mc.Result {
 		// family 'lostreply': the same clauses, every in-process start is a start like any other
 		mode += ":lostreply"
 	}
+	if len(scn.Stops) > 0 {
+		// family 'lives': the same clauses over a history of several lives with traffic in each
+		mode += ":lives"
+	}
 	if rec.Early != nil {
 		r := *rec.Early
+		if len(scn.Stops) > 0 {
+			r.Sig += ":lives"
+		}
 		if scn.Rekey > 0 {
 			r.Sig += ":failover"
 		}
@@ -631,6 +660,8 @@ func runC14(t *testing.T, rep *mc.Reporter) {
 		foo   bool
 		colo  bool
 		burst bool
+		// topoPre: the first topoPre steps of topo are applied before the first unit (c14cScenario.TopoPre)
+		topoPre int
 	}
 	var cplans []cplan
 	for _, ls := range laneSeqs {
@@ -703,7 +734,51 @@ func runC14(t *testing.T, rep *mc.Reporter) {
 				cplan{lanes: []int{0, 1, 0}, bound: tb, mode: "pipeline", topo: tp, burst: true})
 		}
 	}
+	// family 'stale map': the first steps of the script have taken place between the tool's start (slot map
+	// read) and the first unit - one slot, or the slots of BOTH lanes (two different nodes) have a new owner -
+	// so the first units are answered MOVED while later units of the same stream are routed on the map the
+	// client refreshes in the background. Item arrival between two parked replies is an explorer action, so
+	// a later unit of a key can be dispatched on the fresh map while an earlier one still waits for its
+	// redirect to be followed. Scripts: {O} / {O,O1} applied up front, {O1,O} with only the first up front
+	// (the second placed by the explorer), {M,M1} up front with the finishing steps placed by the explorer
+	type stalePlan struct {
+		lanes []int
+		topo  []string
+		pre   int
+		bound int
+		mode  string
+	}
+	stale := []stalePlan{
+		{[]int{1, 0, 0}, []string{"O", "O1"}, 2, 2, "pipeline"},
+		{[]int{0, 1, 0}, []string{"O", "O1"}, 2, 1, "pipeline"},
+		{[]int{1, 0, 0}, []string{"O"}, 1, 1, "pipeline"},
+		{[]int{1, 0, 0}, []string{"O1", "O"}, 1, 1, "pipeline"},
+	}
+	if tier == "thorough" {
+		stale = nil
+		for _, mode := range []string{"pipeline", "parallel", "sync"} {
+			for _, ls := range [][]int{{1, 0, 0}, {0, 1, 0}, {0, 0, 1}, {1, 0, 1, 0}} {
+				stale = append(stale,
+					stalePlan{ls, []string{"O", "O1"}, 2, 2, mode},
+					stalePlan{ls, []string{"O"}, 1, 2, mode},
+					stalePlan{ls, []string{"O1", "O"}, 1, 2, mode},
+					stalePlan{ls, []string{"M", "M1", "F", "F1"}, 2, 2, mode})
+			}
+		}
+	}
+	for _, sp := range stale {
+		tplans = append(tplans, cplan{lanes: sp.lanes, bound: sp.bound, mode: sp.mode, topo: sp.topo, topoPre: sp.pre})
+	}
 	fam := os.Getenv("VERIF_FAMILY") // development aid / parts: "cauto" = only the AutoFlush cluster plan
+	if fam == "ctopo:stale" { // development aid: only the 'stale map' plans
+		var keep []cplan
+		for _, cp := range tplans {
+			if cp.topoPre > 0 {
+				keep = append(keep, cp)
+			}
+		}
+		tplans, fam = keep, "ctopo"
+	}
 	if strings.HasPrefix(fam, "ctopo:") { // development aid: "ctopo:<mode>" = only the plans of one mode
 		var keep []cplan
 		for _, cp := range tplans {
@@ -727,7 +802,7 @@ func runC14(t *testing.T, rep *mc.Reporter) {
 		cplans = tplans
 		plans = nil
 	}
-	if fam == "big" || fam == "failover" || fam == "failoverc" || fam == "lostreply" {
+	if fam == "big" || fam == "failover" || fam == "failoverc" || fam == "lostreply" || fam == "lives" {
 		cplans = nil
 	}
 	// ---- family 'failover' (c14r_test.go): the source's replication id changes between two starts.
@@ -741,6 +816,11 @@ func runC14(t *testing.T, rep *mc.Reporter) {
 	if fam == "" || fam == "lostreply" {
 		c14LostReplyFamily(t, rep, tier, shard, nshards, &idx, budget, exec, fam == "lostreply")
 	}
+	// ---- family 'lives' (c14l_test.go): several lives with traffic in each (orderly stops between units), a
+	// non-empty first snapshot, a crash in the first life; its own small share of the deadline
+	if fam == "" || fam == "lives" {
+		c14LivesFamily(t, rep, tier, shard, nshards, &idx, budget, exec, fam == "lives")
+	}
 	for _, cp := range cplans {
 		// one execution costs about half a second (every start scans the 16384 slots): all shards
 		// share each of these scenarios, divided at the root of its execution tree
@@ -748,7 +828,7 @@ func runC14(t *testing.T, rep *mc.Reporter) {
 			rep.Capped("cluster scenarios: their share of the deadline is used up")
 			break
 		}
-		cscn := c14cScenario{Lanes: cp.lanes, Cfg: biCfg{cp.mode, 2}, MaxCrashes: ccrashes, Idle: 1, Cluster: true, Soft: cp.soft, Pre: cp.pre, AutoFlush: cp.auto, PreSameLife: cp.same, Topo: cp.topo, Foo: cp.foo, Colo: cp.colo, Burst: cp.burst}
+		cscn := c14cScenario{Lanes: cp.lanes, Cfg: biCfg{cp.mode, 2}, MaxCrashes: ccrashes, Idle: 1, Cluster: true, Soft: cp.soft, Pre: cp.pre, AutoFlush: cp.auto, PreSameLife: cp.same, Topo: cp.topo, Foo: cp.foo, Colo: cp.colo, Burst: cp.burst, TopoPre: cp.topoPre}
 		if len(cp.topo) > 0 {
 			cscn.MaxCrashes = 0
 		}
